@@ -1,6 +1,7 @@
 import DaskModel.Lemmas.SetItemPlan
 import DaskModel.Lemmas.SlicePlan
 import DaskModel.Lemmas.SetItemParse
+import DaskModel.Lemmas.SetItemNDLemmas
 /-!
 # C21 — array item assignment equals NumPy assignment (theorems)
 
@@ -190,5 +191,53 @@ example :
     parseSpecB 0 ⟨none, none, some (-1)⟩ = true := by
   decide
 example : (parseSlice 8 ⟨some 7, some 2, some (-2)⟩).map (·.index) = some (PSlice.ofInts 3 8 2) := by decide
+
+/-! ## N-d assembly (`Model/SetItemND.lean`: the loop over the dimensions of a block, and what all blocks assign) -/
+
+open Dask.SetItemND in
+/-- **The per-block loop is the conjunction of the axes.** For every list of (parsed index, block location) pairs
+    the loop `for dim, (index, (loc0, loc1)) in enumerate(zip(indices, locations))` with its `overlaps = False; break`
+    succeeds iff every axis overlaps the block, and `block_indices` is then the list of the per-axis block indices
+    (`axisBI`: `blockSlice` for a slice — `slice_block_spec` —, `index - loc0` for an integer, the block's part of an
+    integer array). -/
+theorem nd_block_indices (dims : List (AIdx × (Int × Int))) :
+    (loopDims dims ⟨[], [], [], none⟩).map (·.blockIndices) = axisBIs dims := by
+  rw [loopDims_blockIndices]
+  cases axisBIs dims <;> simp
+
+open Dask.SetItemND in
+/-- …and `block_indices_shape` / `block_preceding_sizes` hold, for the axes not indexed by an integer and in axis
+    order, the per-axis `block_index_size` / `n_preceding` from which the value slices are cut. -/
+theorem nd_block_sizes (dims : List (AIdx × (Int × Int))) (st : LoopState)
+    (h : loopDims dims ⟨[], [], [], none⟩ = some st) :
+    st.shape = (dims.filterMap fun d => (axisSizes d.1 d.2).map (·.1)) ∧
+    st.preceding = (dims.filterMap fun d => (axisSizes d.1 d.2).map (·.2)) := by
+  have := loopDims_sizes dims _ st h
+  simpa using this
+
+open Dask.SetItemND in
+/-- **N-d assignment on the plan.** `axes` = per axis the parsed index (slice with positive step, integer, or integer
+    array — all in bounds) and the length of the value axis matched with it. A vector `t` of (array position, value
+    position) pairs — one per axis; no value position for an integer axis — is assigned by some block `b` (on every
+    axis the pair is among those the axis' block `b_k` assigns: `blockAssign` / `blockAssignInt`, i.e. block index and
+    value piece `[n_preceding, n_preceding + size)`) **iff** it is one of NumPy's pairs on every axis (the `p`-th
+    selected position gets value position `p`). Blocks assign nothing else, and every selected element is assigned. -/
+theorem setitem_nd_den (axes : List (AIdx × Nat)) (chunks : List (List Nat)) (hok : AxesOK axes chunks)
+    (t : List (Int × Option Nat)) :
+    NDSelected axes chunks t ↔ ∃ b, NDIn (fsOf axes) chunks b t := by
+  rw [← ndAny_selected axes chunks t hok]
+  exact ndIn_cover (fsOf axes) chunks t
+
+open Dask.SetItemND in
+/-- non-vacuity: `x[1:9:3, 2] = [a, b, c]` on chunks ((4,3,5),(2,2)): element (7, 2) gets value position 2, from the
+    block (2, 1) -/
+example : AxesOK [(.sl 1 9 3, 3), (.int 2, 0)] [[4, 3, 5], [2, 2]] :=
+  ⟨⟨by decide, by decide, by decide, by decide⟩, ⟨by decide, by decide⟩, trivial⟩
+open Dask.SetItemND in
+example : NDIn (fsOf [(.sl 1 9 3, 3), (.int 2, 0)]) [[4, 3, 5], [2, 2]] [2, 1] [(7, some 2), (2, none)] :=
+  ⟨⟨(7, 12), by decide, by decide⟩, ⟨(2, 4), by decide, by decide⟩, trivial⟩
+open Dask.SetItemND in
+example : loopDims [(.sl 1 9 3, (4, 7)), (.int 2, (2, 4))] ⟨[], [], [], none⟩
+    = some ⟨[.sl 0 3 3, .int 0], [some 1], [some 1], none⟩ := by decide
 
 end Dask.C21
